@@ -75,7 +75,9 @@ func (s *State) JudgeAdmin(a Admin) AdminVerdict {
 		}
 		return AdminVerdict{OK: false, Why: "signer is not the authority"}
 	}
-	fail := func(format string, x ...any) AdminVerdict { return AdminVerdict{OK: false, Why: fmt.Sprintf(format, x...)} }
+	fail := func(format string, x ...any) AdminVerdict {
+		return AdminVerdict{OK: false, Why: fmt.Sprintf(format, x...)}
+	}
 	switch a.Kind {
 	case "pause_protocol", "unpause_protocol":
 		p, ok := ProtocolNames[a.Protocol]
